@@ -360,6 +360,20 @@ func hasNil(args []interface{}) bool {
 }
 
 // andOrBypass: what the evaluator returns when its short-circuit jump skips the and/or operator.
+// decidingLiteralFirst: scanning left to right, does a deciding boolean come before every non-boolean operand?
+func decidingLiteralFirst(op string, args []interface{}) bool {
+	for _, a := range args {
+		b, ok := a.(bool)
+		if !ok {
+			return false
+		}
+		if b == (op == "or") {
+			return true
+		}
+	}
+	return false
+}
+
 func andOrBypass(op string, args []interface{}) (bool, bool) {
 	isOr := op == "or"
 	for i, a := range args {
@@ -456,7 +470,12 @@ func c18Eval(w *W, r *rand.Rand, op string, args []interface{}) {
 				continue
 			}
 			if (op == "and" || op == "or") && wantErr != nil && o.Err == nil {
-				if bv, ok := andOrBypass(op, args); ok && o.V == bv {
+				// (the jump can only bypass an and/or that is a node of its own: with FastEvaluation a two-leaf and/or is
+				// inlined and its operator always runs, so a boolean there is a different defect and is not the known finding)
+				// ... unless constant folding meets the deciding literal before any non-boolean one)
+				fast2 := opts&OptFE != 0 && len(args) == 2
+				foldedEarly := !asVars && opts&OptCF != 0 && decidingLiteralFirst(op, args)
+				if bv, ok := andOrBypass(op, args); ok && o.V == bv && (!fast2 || foldedEarly) {
 					w.Fail("algebra/andor-short-circuit-bypasses-operator-checks", "%s\nsource: %s binding: %s options: %s", d, firstN(src, 500), b, opts)
 					continue
 				}
